@@ -28,7 +28,8 @@ def run(tier, replay):
         if replay:
             cases_path = replay
         vlib.run_harness(["base64", "--cases", cases_path, "--out", trace, "--seed", vlib.seed(),
-                          "--random", nrand, "--maxlen", maxlen, "--corrupt", ncorr, "--sweep", sweep, "--threads", 14],
+                          "--random", nrand, "--maxlen", maxlen, "--corrupt", ncorr, "--sweep", sweep, "--threads", 14,
+                          "--big", 9 if tier == "quick" else 30, "--bigdec", 0 if tier == "quick" else 3, "--biglen", 65536],
                          timeout=3000)
         # 3. validate the recorded trace against the specification
         tv = vlib.validate_trace("Trace_Base64", trace, heap="12g" if tier == "thorough" else "6g")
@@ -60,7 +61,7 @@ def run(tier, replay):
                         ("ALL 16 777 216" if sweep == 256 else "%d" % (sweep * 65536)),
                         ("ALL 16 777 216" if sweep == 256 else "%d" % (max(1, sweep // 4) * 64 ** 3)))
                     +
-                    "library and the event is validated by Trace_Base64; plus seeded random inputs up to %d bytes in "
+                    "library and the event is validated by Trace_Base64; plus inputs of 64 KiB, 32 KiB, ... in every length residue (encoder; thorough: three of them back through the quadratic decoder), plus seeded random inputs up to %d bytes in "
                     "every length residue mod 3 and every position x 9 replacement characters of %d valid texts" % (maxlen, ncorr),
             "checker_cmd": "tlc MC_Base64 (%s.cfg); rwsv base64; tlc Trace_Base64" % cfg,
         }
